@@ -259,7 +259,7 @@ func (f *foldState) applyValue(o *Opt, v string, mandatoryOrAttached bool) {
 	case KMap:
 		idx := strings.Index(v, "=")
 		if idx < 0 {
-			f.fail("kv", o.Name)
+			f.fail("kv") // the message names the key that was used, any error is accepted
 			return
 		}
 		k := v[:idx]
